@@ -47,6 +47,39 @@ def tables(ctx, lz, D):
     return dict(t=ents, soft=soft)
 
 
+def mode_files(ctx, lz, D, coders):
+    """Test files for the decoding modes and the memory each needs: a small .xz whose Block declares a 1 MiB
+    dictionary (-d / -t) and a file with one big Index (-l)."""
+    x, real = D.patch_xz_dict(coders.encode_xz(b"mode test " * 300, preset=0), 1 << 20)
+    F = int(lz.L().lzma_raw_decoder_memusage(coders.lzma2_filters(0, dict_size=real)))
+    nrec = 40000 if ctx.quick else 150000
+    big = D.synth_xz_stream([(5 + (k & 3), 1 + (k % 977)) for k in range(nrec)])
+    needs = []
+    D.LimitedRun("file_info", big, 1).run(policy=lambda run, u: (needs.append(u), u)[1])
+    if not needs:
+        raise MachineryError("file info decoder never hit the limit on the big-Index file")
+    paths = {}
+    for nm, blob in (("dec", x), ("list", big)):
+        paths[nm] = os.path.join(ctx.workdir, "modes_%s.xz" % nm)
+        open(paths[nm], "wb").write(blob)
+    return dict(need=dict(decompress=F, test=F, list=int(max(needs))), paths=paths)
+
+
+def observe_mode(cli, plan, mf):
+    c = plan["c"]
+    args = [cli["xz"]]
+    if c["how"] == "both":
+        args.append("--memlimit=%d" % c["limit"])
+    elif c["how"] != "none":
+        args.append("--memlimit-%s=%d" % (c["how"], c["limit"]))
+    args += {"decompress": ["-dc"], "test": ["-t"], "list": ["-l"]}[c["mode"]]
+    args.append(mf["paths"]["list" if c["mode"] == "list" else "dec"])
+    env = dict(os.environ); env["LC_ALL"] = "C"; env.pop("XZ_OPT", None); env.pop("XZ_DEFAULTS", None); env.pop("LD_PRELOAD", None)
+    p = subprocess.run(args, stdout=subprocess.PIPE, stderr=subprocess.PIPE, env=env, timeout=300)
+    err = p.stderr.decode(errors="replace")
+    return dict(args=args[1:], rc=p.returncode, ok=p.returncode == 0, limit_msg="Memory usage limit reached" in err, stderr=err[-600:])
+
+
 def observe(cli, plan, tabs, inp, workdir, D):
     c = plan["c"]; e = tabs["t"][c["e"] - 1]
     args = [cli["xz"], "-vv", "-c", "-%d" % e["preset"]]
@@ -121,7 +154,10 @@ def compare(plan, ob, tabs, D):
 def run(ctx):
     from harness.pydrv import lz
     from harness.pydrv import c09drv as D
+    from harness.pydrv import coders
     tabs = tables(ctx, lz, D)
+    mf = mode_files(ctx, lz, D, coders)
+    tabs["need"] = mf["need"]
     tp = os.path.join(ctx.workdir, "memadjust_tables.json")
     json.dump(tabs, open(tp, "w"))
     r = tlc.run("MemAdjust", workers=1, timeout=900, env={"TABLES": tp})
@@ -132,6 +168,22 @@ def run(ctx):
     if len(plans) < 100:
         raise MachineryError("MemAdjust produced only %d plans\n%s" % (len(plans), r.out[-2000:]))
     cli = build.cli()
+    modep = [p for p in plans if "mode" in p["c"]]
+    plans = [p for p in plans if "mode" not in p["c"]]
+    if len(modep) < 30:
+        raise MachineryError("MemAdjust produced only %d decoding-mode plans" % len(modep))
+    nmode = 0
+    for p in modep:           # all of them in both tiers (cheap)
+        ob = observe_mode(cli, p, mf)
+        ctx.case(key=("xzmode", json.dumps(p["c"], sort_keys=True)))
+        if ob["ok"] != p["o"]["ok"] or ob["limit_msg"] != (not p["o"]["ok"]):
+            nmode += 1
+            key = "xz:limit:%s:memlimit-%s:%s" % (p["c"]["mode"], p["c"]["how"], "not-enforced" if ob["ok"] else "refused")
+            ctx.violation(key, "xz %s\npredicted %s\nobserved %s\n(needs: %s)" % (" ".join(ob["args"]), json.dumps(p["o"]),
+                          json.dumps({k: v for k, v in ob.items() if k != "args"}), json.dumps(mf["need"])), dict(kind="xz_mode_plan", plan=p))
+    ctx.add_traces(len(modep))
+    ctx.extra["xz_mode_plans_replayed"] = len(modep)
+    ctx.log("MemAdjust: %d decoding-mode plans (-d/-t/-l x which limit option x limit) replayed, %d mismatches" % (len(modep), nmode))
     soft = [p for p in plans if p["c"]["soft"]]
     hard = [p for p in plans if not p["c"]["soft"]]
     if ctx.quick:
